@@ -58,9 +58,19 @@ fn canon_to_sql(c: &str) -> String {
     }
 }
 
-fn gen_cell(r: &mut Rng, ty: Ty, key: bool) -> String {
+/// `far`: values from a domain disjoint from (and larger than) the normal one — rows of a "far" chunk
+/// have no join / correlation partner among normal rows.
+fn gen_cell(r: &mut Rng, ty: Ty, key: bool, far: bool) -> String {
     if r.chance(if key { 20 } else { 25 }, 100) {
         return "null".into();
+    }
+    if far {
+        return match ty {
+            Ty::I32 => format!("i32:{}", r.range(10, 13)),
+            Ty::I64 => format!("i64:{}", r.range(10, 13)),
+            Ty::Str => format!("s:{}", hex(r.pick(&["zy", "zz"]).as_bytes())),
+            Ty::Bool => format!("b:{}", r.chance(1, 2)),
+        };
     }
     match ty {
         Ty::I32 => format!("i32:{}", if key { r.range(0, 3) } else { r.range(-3, 5) }),
@@ -76,19 +86,57 @@ struct Tbl {
     chunks: Vec<Vec<Vec<String>>>,
 }
 
-fn gen_table(r: &mut Rng, name: &'static str, cols: Vec<(&'static str, Ty, bool)>) -> Tbl {
-    let n = match r.below(10) {
-        0 => 0,
-        1 => 1,
-        _ => r.range(2, 9) as usize,
-    };
-    let rows: Vec<Vec<String>> = (0..n).map(|_| cols.iter().map(|c| gen_cell(r, c.1, c.2)).collect()).collect();
+/// Table layouts (every chunk = one INSERT = one chunk of the in-memory scan):
+///   plain      0..9 rows cut into chunks of 1, 2, 3 or 8 rows
+///   clustered  2..4 chunks of 1..4 rows; only ONE chunk (first / middle / last) holds rows of the
+///              normal value domain, the others hold "far" rows — partners of the other table sit in a
+///              single, chosen chunk
+///   large      1025..2100 rows (chunks of 1024 + rest, or 1023 + 2 + rest): crosses the 1024-row
+///              boundary of every executor; few distinct keys
+fn gen_table(r: &mut Rng, name: &'static str, cols: Vec<(&'static str, Ty, bool)>, layout: u64) -> Tbl {
+    let row = |r: &mut Rng, far: bool| -> Vec<String> { cols.iter().map(|c| gen_cell(r, c.1, c.2, far)).collect() };
     let mut chunks = vec![];
-    let mut i = 0;
-    while i < n {
-        let k = (*r.pick(&[1usize, 2, 3, 8])).min(n - i);
-        chunks.push(rows[i..i + k].to_vec());
-        i += k;
+    match layout {
+        1 => {
+            let nch = r.range(2, 4) as usize;
+            let near = match r.below(3) {
+                0 => 0,
+                1 => nch / 2,
+                _ => nch - 1,
+            };
+            for j in 0..nch {
+                let k = r.range(1, 4) as usize;
+                chunks.push((0..k).map(|_| row(r, j != near)).collect());
+            }
+        }
+        2 => {
+            let n = *r.pick(&[1025usize, 1030, 2049, 2100]);
+            let rows: Vec<Vec<String>> = (0..n).map(|_| row(r, false)).collect();
+            let sizes: Vec<usize> = if r.chance(1, 2) { vec![1024, 1024, 1024] } else { vec![1023, 2, 1024, 1024] };
+            let mut i = 0;
+            for k in sizes {
+                if i >= n {
+                    break;
+                }
+                let k = k.min(n - i);
+                chunks.push(rows[i..i + k].to_vec());
+                i += k;
+            }
+        }
+        _ => {
+            let n = match r.below(10) {
+                0 => 0,
+                1 => 1,
+                _ => r.range(2, 9) as usize,
+            };
+            let rows: Vec<Vec<String>> = (0..n).map(|_| row(r, false)).collect();
+            let mut i = 0;
+            while i < n {
+                let k = (*r.pick(&[1usize, 2, 3, 8])).min(n - i);
+                chunks.push(rows[i..i + k].to_vec());
+                i += k;
+            }
+        }
     }
     Tbl { name, cols, chunks }
 }
@@ -228,8 +276,17 @@ fn gen_query(r: &mut Rng, t0: &Tbl, t1: &Tbl) -> Query {
             rkeys.push(cols1[2].sql.as_str());
             shape += "two-keys ";
         }
+        // a share of the inner / left joins has a NON-equi condition only (nested-loop join)
+        let mut nonequi = false;
+        if (jt_plan == "inner" || jt_plan == "left_outer") && r.chance(1, 6) {
+            let (op, pop) = *r.pick(&[(">", ">"), ("<=", "<="), ("<>", "<>")]);
+            on_sql = format!("{} {op} {}", cols0[2].sql, cols1[2].sql);
+            on_plan = format!("({pop} {} {})", cols0[2].plan, cols1[2].plan);
+            nonequi = true;
+            shape += "non-equi ";
+        }
         // both sides sorted on the join keys => the planner turns the hash join into a merge join
-        let sorted_inputs = r.chance(2, 5);
+        let sorted_inputs = !nonequi && r.chance(2, 5);
         if r.chance(1, 5) && jt_plan == "inner" {
             on_sql = format!("{on_sql} AND {} < {}", cols0[1].sql, cols1[1].sql);
             on_plan = format!("(and {on_plan} (< {} {}))", cols0[1].plan, cols1[1].plan);
@@ -257,7 +314,7 @@ fn gen_query(r: &mut Rng, t0: &Tbl, t1: &Tbl) -> Query {
         where_lite.push(p.lite);
         shape += " where";
     }
-    if jk < 5 && r.chance(1, 4) {
+    if jk < 5 && r.chance(1, 3) {
         // subquery over t1 (only when t1 is not already in FROM)
         let sub_filter = if r.chance(1, 3) { Some(gen_pred(r, &cols1, 0)) } else { None };
         let mut sub_plan = scan_plan(1, t1.cols.len());
@@ -268,6 +325,19 @@ fn gen_query(r: &mut Rng, t0: &Tbl, t1: &Tbl) -> Query {
         }
         let (o, i) = if r.chance(1, 4) { (1usize, 1usize) } else { (0, 0) };
         let kind = r.below(4);
+        // correlation of EXISTS / NOT EXISTS: equality (hash semi/anti join), equality AND a non-equi
+        // comparison (hash semi/anti join with residual), or a non-equi comparison only (nested loop)
+        let corr = r.below(3);
+        let (nop, npop) = *r.pick(&[("<", "<"), (">=", ">="), ("<>", "<>")]);
+        let ne_sql = format!("{} {nop} {}", cols1[2].sql, cols0[2].sql);
+        let ne_plan = format!("({npop} {} {})", cols1[2].plan, cols0[2].plan);
+        let eq_sql = format!("{} = {}", cols1[i].sql, cols0[o].sql);
+        let eq_plan = format!("(= {} {})", cols1[i].plan, cols0[o].plan);
+        let (corr_sql, corr_plan) = match corr {
+            0 => (eq_sql.clone(), eq_plan.clone()),
+            1 => (format!("{eq_sql} AND {ne_sql}"), format!("(and {eq_plan} {ne_plan})")),
+            _ => (ne_sql.clone(), ne_plan.clone()),
+        };
         let (s, l, jt, on) = match kind {
             0 => (
                 format!("{} IN (SELECT {} FROM {}{sub_where})", cols0[o].sql, cols1[i].sql, t1.name),
@@ -284,27 +354,23 @@ fn gen_query(r: &mut Rng, t0: &Tbl, t1: &Tbl) -> Query {
             ),
             2 => (
                 format!(
-                    "EXISTS (SELECT * FROM {} WHERE {} = {}{})",
+                    "EXISTS (SELECT * FROM {} WHERE {corr_sql}{})",
                     t1.name,
-                    cols1[i].sql,
-                    cols0[o].sql,
                     sub_filter.as_ref().map(|f| format!(" AND {}", f.sql)).unwrap_or_default()
                 ),
                 String::new(),
                 "semi",
-                format!("(= {} {})", cols1[i].plan, cols0[o].plan),
+                corr_plan.clone(),
             ),
             _ => (
                 format!(
-                    "NOT EXISTS (SELECT * FROM {} WHERE {} = {}{})",
+                    "NOT EXISTS (SELECT * FROM {} WHERE {corr_sql}{})",
                     t1.name,
-                    cols1[i].sql,
-                    cols0[o].sql,
                     sub_filter.as_ref().map(|f| format!(" AND {}", f.sql)).unwrap_or_default()
                 ),
                 String::new(),
                 "anti",
-                format!("(= {} {})", cols1[i].plan, cols0[o].plan),
+                corr_plan.clone(),
             ),
         };
         let _ = l;
@@ -312,6 +378,9 @@ fn gen_query(r: &mut Rng, t0: &Tbl, t1: &Tbl) -> Query {
         where_lite.push(s.clone());
         where_sql.push(s);
         shape += ["", " in", " not-in", " exists", " not-exists"][kind as usize + 1];
+        if kind >= 2 {
+            shape += ["", "/eq+ne", "/ne"][corr as usize];
+        }
     }
     if !where_sql.is_empty() {
         from_sql = format!("{from_sql} WHERE {}", where_sql.join(" AND "));
@@ -471,8 +540,18 @@ fn gen(n: usize, out: &str) {
     let mut r = Rng::from_env();
     let mut s = String::new();
     for id in 0..n {
-        let t0 = gen_table(&mut r, "t0", vec![("a", Ty::I32, true), ("b", Ty::I64, true), ("c", Ty::I32, false), ("s", Ty::Str, true), ("d", Ty::Bool, false)]);
-        let t1 = gen_table(&mut r, "t1", vec![("x", Ty::I32, true), ("y", Ty::I64, true), ("z", Ty::I32, false), ("w", Ty::Str, true)]);
+        // layouts: 0 plain, 1 clustered (partners in one chosen chunk), 2 large (> 1024 rows; at most one
+        // of the two tables, the other stays small so that nested loops stay cheap)
+        let (l0, l1) = match r.below(100) {
+            0..=2 => (2, 0),
+            3..=6 => (0, 2),
+            7..=21 => (0, 1),
+            22..=29 => (1, 0),
+            30..=34 => (1, 1),
+            _ => (0, 0),
+        };
+        let t0 = gen_table(&mut r, "t0", vec![("a", Ty::I32, true), ("b", Ty::I64, true), ("c", Ty::I32, false), ("s", Ty::Str, true), ("d", Ty::Bool, false)], l0);
+        let t1 = gen_table(&mut r, "t1", vec![("x", Ty::I32, true), ("y", Ty::I64, true), ("z", Ty::I32, false), ("w", Ty::Str, true)], l1);
         let q = gen_query(&mut r, &t0, &t1);
         let tj = |t: &Tbl| json!({"name": t.name, "cols": t.cols.iter().map(|c| json!([c.0, c.1.tag(), c.1.sql()])).collect::<Vec<_>>(), "chunks": t.chunks});
         let v = json!({"id": id, "shape": q.shape, "tables": [tj(&t0), tj(&t1)], "sql": q.sql, "sqlite": q.lite, "logical": q.logical, "ordered": q.ordered,
